@@ -46,6 +46,21 @@ func (r *failingReader) Read(b []byte) (int, error) {
 	return n, nil
 }
 
+// onlyReader is an io.Reader without a Bytes() method (so the stream lexer really streams).
+type onlyReader struct {
+	data []byte
+	off  int
+}
+
+func (r *onlyReader) Read(p []byte) (int, error) {
+	if r.off >= len(r.data) {
+		return 0, io.EOF
+	}
+	n := copy(p, r.data[r.off:])
+	r.off += n
+	return n, nil
+}
+
 type visitor struct {
 	sb *strings.Builder
 	n  int
@@ -646,6 +661,88 @@ var All = []Body{
 			step()
 		}
 		return sb.String()
+	}},
+	// ---- two stream lexers over long streams, alive at the same time, freeing with a lag ----
+	{"streamlexer-two-streams", true, func(v int, step func()) string {
+		var sb strings.Builder
+		mk := func(ch byte) *buffer.StreamLexer {
+			data := bytes.Repeat([]byte{ch, ch, ch, ch, ch, ch, ' '}, 3000+500*v)
+			return buffer.NewStreamLexer(&onlyReader{data: data})
+		}
+		type stream struct {
+			z       *buffer.StreamLexer
+			ch      byte
+			tokens  int
+			foreign int
+			pending []int
+		}
+		ss := []*stream{{z: mk('a'), ch: 'a'}, {z: mk('b'), ch: 'b'}}
+		next := func(s *stream) bool {
+			for {
+				c := s.z.Peek(0)
+				if c == 0 && s.z.Err() != nil {
+					return false
+				}
+				s.z.Move(1)
+				if c == ' ' {
+					break
+				}
+			}
+			tok := s.z.Shift()
+			s.tokens++
+			for _, c := range tok {
+				if c != s.ch && c != ' ' {
+					s.foreign++
+					break
+				}
+			}
+			s.pending = append(s.pending, s.z.ShiftLen())
+			if len(s.pending) > 3+v { // free with a lag
+				s.z.Free(s.pending[0])
+				s.pending = s.pending[1:]
+			}
+			return true
+		}
+		// the second lexer starts when the first one is well into its stream (it has recycled blocks by then), a
+		// third one later still
+		ss = append(ss, &stream{z: mk('c'), ch: 'c'})
+		starts := []int{0, 1500 + 700*v, 2600}
+		for i := 0; ; i++ {
+			more := false
+			for k, st := range ss {
+				if i >= starts[k] && next(st) {
+					more = true
+				}
+			}
+			if !more && i >= starts[2] {
+				break
+			}
+			if i%400 == 0 {
+				step()
+			}
+		}
+		for _, s := range ss {
+			fmt.Fprintf(&sb, "%c: %d tokens, %d with foreign bytes, err=%v; ", s.ch, s.tokens, s.foreign, s.z.Err())
+			if s.foreign > 0 {
+				sb.WriteString("SELF-CHECK FAILED: a stream lexer returned bytes of another lexer's stream; ")
+			}
+		}
+		return sb.String()
+	}},
+	{"js-deep-print", false, func(v int, step func()) string {
+		depth := 9 + 4*v
+		src := strings.Repeat("if (a) { ", depth) + "b = `x\ny`; /*! c\n d */" + strings.Repeat(" }", depth)
+		ast, err := js.Parse(parse.NewInputBytes(pick(0, src)), js.Options{})
+		if err != nil {
+			return "error " + err.Error()
+		}
+		step()
+		s1 := ast.JSString()
+		step()
+		var buf bytes.Buffer
+		w := parse.NewIndenter(&buf, 40+8*v)
+		w.Write([]byte("p\nq\n"))
+		return s1 + "|" + buf.String()
 	}},
 	// ---- a consumer that edits its own tree (as a minifier does): literals, names, operators ----
 	{"js-ast-edit", true, func(v int, step func()) string {
